@@ -550,6 +550,43 @@ def _always_returns(t):
     return False
 
 
+_FOLD_CTR = [5000]
+
+
+def _fold_loop(t, ctx):
+    """iter.fold(init, |acc, x| body) / iter.try_fold(init, |acc, x| body) as the loop they abbreviate:
+         let mut m = init; for x in iter { m = body[acc := m] }; m
+       ctx: "plain" (fold; value m), "option" (try_fold over Option under ok_or: value Ok(m), step m = body.ok_or(..)?),
+            "result-value" (try_fold over Result under `?`: value m, step m = body?)"""
+    if not (_is(t, "call") and len(t) == 5 and isinstance(t[1], str) and _is(t[4], "lambda") and len(t[4]) == 3 and len(t[4][1]) == 2 and all(_is(b_, "bind") for b_ in t[4][1])):
+        return None
+    is_try = t[1].endswith("iter::Iterator>::try_fold") or t[1] in ("Iterator::try_fold",)
+    is_fold = t[1].endswith("iter::Iterator>::fold") or t[1] in ("Iterator::fold",)
+    if (ctx == "plain") != is_fold or not (is_try or is_fold):
+        return None
+    it, init, lam = t[2], t[3], t[4]
+    acc, x = lam[1][0][1], lam[1][1][1]
+    _FOLD_CTR[0] += 1
+    m = "m%d" % _FOLD_CTR[0]
+
+    def sv(z):
+        if isinstance(z, tuple):
+            if z == ("var", acc):
+                return ("var", m)
+            return tuple(sv(w) for w in z)
+        return z
+    body = sv(lam[2])
+    if not (_is(it, "call") and it[1] == "iter") and not (_is(it, "range") or _is(it, "rangei")):
+        it = ("call", "iter", it)
+    if ctx == "plain":
+        step, val = body, ("var", m)
+    elif ctx == "option":
+        step, val = ("try", ("lift", body)), ("Ok", ("var", m))
+    else:
+        step, val = ("try", body), ("var", m)
+    return ("seq", ("let", m, init), ("for", ("bind", x), it, ("set", ("var", m), step)), val)
+
+
 def _neg(c):
     """exact negation of a boolean term in positive form, or None"""
     if _is(c, "un") and c[1] == "not" and len(c) == 4:
@@ -781,6 +818,41 @@ def normalise(t):
                 v = ("var", s[0][2][1])
                 if s[-1] == ("Ok", v) and n[-1] == ("Err",):
                     return ("lift", t[1])
+    if h == "lift" and len(t) == 2:
+        x = t[1]
+        if x == ("None",):
+            return ("Err",)
+        if _is(x, "Some") and len(x) == 2:
+            return ("Ok", x[1])
+        if _is(x, "if") and len(x) == 4:
+            return ("if", x[1], normalise(("lift", x[2])), normalise(("lift", x[3])))
+        if _is(x, "match") and len(x) > 2 and all(len(a) == 2 for a in x[2:]):
+            return ("match", x[1]) + tuple((a[0], normalise(("lift", a[1]))) for a in x[2:])
+        if _is(x, "seq") and len(x) > 2:
+            return x[:-1] + (normalise(("lift", x[-1])),)
+        fo = _fold_loop(x, "option")
+        if fo is not None:
+            return normalise(fo)
+    if h == "call" and isinstance(t[1], str):
+        fo = _fold_loop(t, "plain")
+        if fo is not None:
+            return normalise(fo)
+    if h == "try" and _is(t[1], "call"):
+        fo = _fold_loop(t[1], "result-value")
+        if fo is not None:
+            return normalise(fo)
+        c = t[1]
+        # iter.map(f).collect::<Result<Vec<_>, _>>()?   ==   let mut v = Vec::new(); for x in iter { v.push(f(x)?) }; v
+        if len(c) == 3 and isinstance(c[1], str) and c[1].startswith("Iterator::collect::<Vec<") and _is(c[2], "call") and len(c[2]) == 4 and isinstance(c[2][1], str) and c[2][1].endswith("iter::Iterator>::map"):
+            it, f_ = c[2][2], c[2][3]
+            if _is(f_, "lambda") and len(f_[1]) == 1 and _is(f_[1][0], "bind") or _is(f_, "fnref"):
+                _FOLD_CTR[0] += 1
+                m = "m%d" % _FOLD_CTR[0]
+                xn = f_[1][0][1] if _is(f_, "lambda") else "b%d" % _FOLD_CTR[0]
+                body = f_[2] if _is(f_, "lambda") else ("icall", f_, ("var", xn))
+                if not (_is(it, "call") and it[1] == "iter"):
+                    it = ("call", "iter", it)
+                return normalise(("seq", ("let", m, ("call", "Vec::new")), ("for", ("bind", xn), it, ("call", "Vec::push", ("var", m), ("try", body))), ("var", m)))
     if h == "try" and _is(t[1], "lift"):
         return ("try", t[1])
     if h == "try" and _is(t[1], "Ok") and len(t[1]) == 2:
@@ -843,6 +915,9 @@ def monad_tail(t, rec_names=()):
         return monad_tail(normalise(("icall", t[3], ("try", t[2]))), rec_names)
     if _is(t, "call") and len(t) == 3 and t[1] in rec_names:
         return ("Ok", ("ev", t[2]))
+    fo = _fold_loop(t, "result-value") if _is(t, "call") else None
+    if fo is not None:
+        return normalise(fo[:-1] + (("Ok", fo[-1]),))
     if _is(t, "if") and len(t) == 4 and _is(t[1], "iflet") and len(t[1]) == 3 and t[3] == ("Err",):
         # if let P = x {a} else {Err}  ==  match x {P => a, _ => Err}
         t = ("match", t[1][2], (t[1][1], t[2]), ("_", t[3]))
